@@ -364,6 +364,8 @@ class Exec:
             return h(self, st, path)
         if isinstance(st, ast.Try):
             return self.do_try(st, path)
+        if isinstance(st, ast.With):
+            return self.do_with(st, path)
         if isinstance(st, ast.Continue):
             return [("continue", None, path)]
         if isinstance(st, ast.Break):
@@ -403,6 +405,25 @@ class Exec:
                 if not self._pure_call(n):
                     return False
         return True
+
+    def do_with(self, st, path):
+        """`with <ctx>:` for context objects whose protocol is given by a model (`enter` / `exit` on the object's model): used
+        for the hardware-description contexts m.If / m.Switch / m.Case of recording Module stubs.  The body's exceptional
+        outcomes propagate without running exit (these contexts do not handle exceptions)."""
+        if len(st.items) != 1 or st.items[0].optional_vars is not None:
+            self.unsupported(st, "with statement with several items or `as`")
+        out = []
+        for ctx, q in self.eval(st.items[0].context_expr, path):
+            if isinstance(ctx, Raised):
+                out.append(("raise", ctx.exc, q)); continue
+            if not (isinstance(ctx, SymObj) and ctx.model is not None and hasattr(ctx.model, "enter")):
+                self.unsupported(st, f"with {ctx!r}")
+            ctx.model.enter(self, ctx, q, st)
+            for kind, val, q2 in self.block(st.body, q):
+                if kind == "fall":
+                    ctx.model.exit(self, ctx, q2, st)
+                out.append((kind, val, q2))
+        return out
 
     def do_try(self, st, path):
         if st.orelse:
@@ -713,6 +734,10 @@ class Exec:
         for v, q in self.eval(e.operand, p):
             if isinstance(v, Raised):
                 out.append((v, q)); continue
+            if isinstance(v, SymObj) and v.model is not None and hasattr(v.model, "unop"):
+                r = v.model.unop(self, v, e.op, q, e)
+                if r is not None:
+                    out.append((r, q)); continue
             if isinstance(e.op, ast.Not):
                 out.append((z3.Not(self.truth(v)), q))
             elif isinstance(e.op, ast.USub):
@@ -1049,6 +1074,12 @@ class Exec:
             return [(Rng(a[0], a[1], z3.IntVal(1)), q)]
         self.oblige(f"range-step-nonzero@{e.lineno}", q, a[2] != 0, e)
         return [(Rng(a[0], a[1], a[2]), q)]
+
+    def b_reversed(self, args, kwargs, q, e):
+        v = args[0]
+        if isinstance(v, Rng):
+            return [(("reversed", v), q)]
+        self.unsupported(e, f"reversed({v!r})")
 
     def b_id(self, args, kwargs, q, e):
         v = args[0]
